@@ -18,7 +18,7 @@ theorem Block.read_mk_ge (base hsize : Nat) (data : List UInt8) (k : Nat) (tx : 
 
 theorem Block.load_nil (pre : File) (m : Member) (hwf : WF (pre ++ [m])) (b : Block) :
     Block.load (pre ++ [m]) b (csum pre + m.csize) =
-      ({ b with base := csum pre + m.csize, tx := ⟨csum pre + m.csize, 0⟩ }, some .eof) := by
+      (Block.failed (csum pre + m.csize), some .eof) := by
   have := memberAt_split (pre ++ [m]) [] hwf
   simp only [List.append_nil, csum_append, csum, Nat.add_zero, memberAt_zero_nil] at this
   simp [Block.load, this]
@@ -70,7 +70,7 @@ theorem readLoop_step {F : File} (hwf : WF F) {r : Reader} {pre : File} {m : Mem
 theorem readLoop_end_nil {F : File} (hwf : WF F) {r : Reader} {pre : File} {m : Member}
     (h : At F r pre m [] m.data.length) (hb : r.blocked = false) (n fuel : Nat) (hn : 0 < n) :
     r.readLoop (fuel + 1) n =
-      (({ r with cur := { r.cur with base := csum F, tx := ⟨csum F, 0⟩ }, err := some .eof } : Reader).setEnd,
+      (({ r with cur := Block.failed (csum F), err := some .eof } : Reader).setEnd,
         [], some .eof) := by
   obtain ⟨rf, rc, rl, re, rb⟩ := r
   obtain ⟨hf, hs, hc, hle, he⟩ := h
